@@ -43,6 +43,8 @@ shrink = cc.shrink
 
 def oracle_expr(case, mode, obs):
     c = case['cfg']
+    if isinstance(obs, int) or obs[0] != 'list':
+        return 'false'     # the whole case crashed / hung: no per-operation observations
     return 'holds_c09 %s %s %s %s %s %s' % (z(c[0]), z(c[1]), z(c[2]), z(c[3]), cc.ops_expr(case), to_coq(obs))
 
 
